@@ -129,6 +129,40 @@ pub fn check_mutation(tape: &[u16], rc: &mut RCase) -> Result<(), Failure> {
     judge(&src, "token_mutation", rc)
 }
 
+/// Several number literals of one program put at the edges of the 64-bit range at once (a validity window from
+/// i64::MIN to a small slot, an amount of i64::MAX next to another one, an index of -1): whatever the analyzer
+/// computes from two literals it computes here from the widest ones that parse.
+pub fn check_edge_literals(tape: &[u16], rc: &mut RCase) -> Result<(), Failure> {
+    let mut t = Tape::new(tape);
+    let ex = examples();
+    let base = if t.chance(1, 3) && !ex.is_empty() {
+        ex[t.pick(ex.len())].1.clone()
+    } else if t.flag() {
+        generated_program(&mut t)
+    } else {
+        // every block that takes numbers, with literals in all of them
+        "party P;\ntx t(a: Int) {\n  input source {\n    from: P,\n    min_amount: Ada(3),\n  }\n  output {\n    to: P,\n    amount: source - Ada(4) - fees,\n    datum: [5, 6][0],\n  }\n  validity {\n    since_slot: 7,\n    until_slot: 8,\n  }\n  metadata {\n    9: 10,\n  }\n  cardano::withdrawal {\n    from: P,\n    amount: 11,\n  }\n}\n".to_string()
+    };
+    let mut toks = fegen::lex(&base);
+    let numbers: Vec<usize> = (0..toks.len()).filter(|i| toks[*i].chars().all(|c| c.is_ascii_digit()) && !toks[*i].is_empty()).collect();
+    if numbers.is_empty() {
+        rc.label("edge_literals:no_number_in_the_program");
+        return Ok(());
+    }
+    const EDGES: [&str; 8] = ["-9223372036854775808", "-9223372036854775807", "9223372036854775807", "9223372036854775806", "-1", "0", "1", "4294967296"];
+    // all of them, or a few
+    let all = t.chance(1, 4);
+    let mut changed = 0;
+    for i in numbers {
+        if all || t.chance(1, 2) {
+            toks[i] = EDGES[t.pick(EDGES.len())].to_string();
+            changed += 1;
+        }
+    }
+    rc.label_n("edge_literals:literals_replaced", changed);
+    judge(&toks.concat(), "edge_literals", rc)
+}
+
 const RUN_LENGTHS: [usize; 4] = [8, 24, 48, 64];
 const RUN_SEPS: [&str; 3] = ["", " ", " x\n"];
 
@@ -238,6 +272,7 @@ pub fn run(tier: Tier, seed: u64) -> Report {
     r.enumerate("nesting", 12 * 64, &|i, rc| check_nesting((i % 12) as usize, 1 + (i / 12) as usize, rc));
     let runs = (run_fragments().len() * RUN_LENGTHS.len() * RUN_SEPS.len() * 4) as u64;
     r.enumerate("repeated_fragments", runs, &|i, rc| check_run(i, rc));
+    r.explore("edge_literals", tier.pick(15_000, 400_000), 600, &|t, rc| check_edge_literals(t, rc));
     r.enumerate("definition_chains", (CHAIN_LENGTHS.len() * 4 * 4 * 2 * 2 * 3) as u64, &|i, rc| check_chain(i, rc));
     r.explore("grammar_derived", tier.pick(60_000, 2_000_000), 700, &|t, rc| check_grammar(t, rc));
     r.explore("token_mutation", tier.pick(60_000, 2_000_000), 500, &|t, rc| check_mutation(t, rc));
@@ -261,6 +296,7 @@ pub fn replay(phase: &str, tape: &[u16], seed: u64) -> Report {
             let i = ((tape[2] as u64) << 16) | tape[3] as u64;
             r.enumerate(phase, 1, &|_, rc| check_chain(i, rc));
         }
+        "edge_literals" => r.explore_list(phase, &[tape.to_vec()], &|t, rc| check_edge_literals(t, rc)),
         "examples_unmodified" => {
             let i = tape[3] as usize;
             let ex = examples();
